@@ -1118,6 +1118,10 @@ func genScenario(r *hx.Rng, i int, allowOpaque bool) *Scenario {
 				stake = 1152921504606846977 // 2^60 + 1
 			case 3:
 				stake = 2001
+			case 4:
+				stake = 1999 // below the minimum: add-stake may bring it to exactly 2000 / 2001
+			case 5:
+				stake = 1500
 			}
 			m := MinerS{Id: fmt.Sprintf("a%03d", k) + "00", Type: 1, Stake: stake, Account: acct,
 				ApplyHeight: uint64(r.Pick(0, 0, 0, int(sc.Height), int(sc.Height)+1)), Status: byte(r.Pick(0, 0, 0, 0, 2))}
@@ -1126,7 +1130,8 @@ func genScenario(r *hx.Rng, i int, allowOpaque bool) *Scenario {
 		nv := r.Pick(0, 1, 2, 3, 4)
 		for k := 0; k < nv; k++ {
 			acct := poolAddrs[r.Intn(len(poolAddrs))]
-			m := MinerS{Id: fmt.Sprintf("b%03d", k) + "00", Type: 0, Stake: uint64(400 * (1 + r.Intn(5))), Account: acct}
+			m := MinerS{Id: fmt.Sprintf("b%03d", k) + "00", Type: 0, Stake: uint64(r.Pick(400, 800, 1200, 2000, 399, 200)), Account: acct,
+				Status: byte(r.Pick(0, 0, 0, 1, 2))}
 			sc.Miners = append(sc.Miners, m)
 			if r.Chance(4, 5) {
 				sc.Group = append(sc.Group, m.Id)
@@ -1231,8 +1236,12 @@ func genScenario(r *hx.Rng, i int, allowOpaque bool) *Scenario {
 		m := sc.Miners[r.Intn(len(sc.Miners))]
 		src := sc.Accounts[r.Intn(len(sc.Accounts))].Addr
 		delta := uint64(r.Pick(0, 1, 1, 2, 5, 100, 9007199254740993))
-		if r.Chance(1, 4) && m.Stake < 2001 {
-			delta = 2001 - m.Stake // just above the proposer minimum
+		min := uint64(400)
+		if m.Type == 1 {
+			min = 2000
+		}
+		if r.Chance(1, 2) && m.Stake <= min {
+			delta = min - m.Stake + uint64(r.Intn(2)) // exactly at, or one above, the minimum
 		}
 		id := unhex(m.Id)
 		if r.Chance(1, 8) {
@@ -1847,6 +1856,16 @@ func nfold(sc *Scenario, n int) map[string]int {
 		for _, tx := range keptBlock.Transactions {
 			tx.ExtraData, tx.Data, tx.Source = "mutated", "mutated", "0xmutated"
 		}
+		// a shadow of the block (same transactions under other hashes) is executed in between: a
+		// result that aliases a buffer reused by the next execution now reads the shadow's values
+		shadow := *sc
+		shadow.Txs = nil
+		for _, x := range sc.Txs {
+			y := x
+			y.Hash = hex.EncodeToString(common.Sha256([]byte("shadow" + x.Hash)))
+			shadow.Txs = append(shadow.Txs, y)
+		}
+		hx.Guard(func() string { execOnce(&shadow, root, t); return "" })
 		if now := keptOut.fingerprint(); now != keptFp {
 			res["RETAINED-RESULT-CHANGED "+now]++
 		}
@@ -1858,14 +1877,24 @@ func nfold(sc *Scenario, n int) map[string]int {
 // classify names the *class* of a violation from the scenario and from what differs between the
 // outcomes (fingerprint = "root=… ev=… rc=…").
 func classify(sc *Scenario, res map[string]int) (string, string) {
+	plain := 0
 	for k := range res {
-		if strings.HasPrefix(k, "CONCURRENT ") {
-			return "concurrent-execution-differs", "a block executed while other blocks are being executed by other goroutines gave another result than alone"
+		if !strings.HasPrefix(k, "CONCURRENT ") && !strings.HasPrefix(k, "SEQUENTIAL ") && !strings.HasPrefix(k, "REUSED-BLOCK-OBJECT") &&
+			!strings.HasPrefix(k, "RETAINED-RESULT-CHANGED") && !strings.HasPrefix(k, "PARENT-ROOT-DIFFERS") {
+			plain++
 		}
 	}
-	for k := range res {
-		if strings.HasPrefix(k, "REUSED-BLOCK-OBJECT") || strings.HasPrefix(k, "RETAINED-RESULT-CHANGED") {
-			return "aliasing-across-executions", "executing the same block object again, or mutating the inputs afterwards, changed a result (shared mutable state across executions)"
+	// the special phases only name the class when the ordinary repetitions agree among themselves
+	if plain <= 1 {
+		for k := range res {
+			if strings.HasPrefix(k, "CONCURRENT ") {
+				return "concurrent-execution-differs", "a block executed while other blocks are being executed by other goroutines gave another result than alone"
+			}
+		}
+		for k := range res {
+			if strings.HasPrefix(k, "REUSED-BLOCK-OBJECT") || strings.HasPrefix(k, "RETAINED-RESULT-CHANGED") {
+				return "aliasing-across-executions", "executing the same block object again, or mutating the inputs afterwards, changed a result (shared mutable state across executions)"
+			}
 		}
 	}
 	if len(sc.GlobalHeights) > 0 {
@@ -1895,6 +1924,12 @@ func classify(sc *Scenario, res map[string]int) (string, string) {
 	}
 	rest := map[string]bool{}
 	for k := range res {
+		if strings.HasPrefix(k, "PARENT-ROOT-DIFFERS") {
+			continue
+		}
+		for _, pre := range []string{"CONCURRENT ", "SEQUENTIAL ", "REUSED-BLOCK-OBJECT ", "RETAINED-RESULT-CHANGED "} {
+			k = strings.TrimPrefix(k, pre)
+		}
 		if i := strings.Index(k, " ev="); i >= 0 {
 			rest[k[i:]] = true
 		} else {
@@ -2073,8 +2108,12 @@ func concurrentBatch(r *hx.Rng, k, rounds int, report func(sc *Scenario, res map
 	for i, sc := range scs {
 		root, t := buildParent(sc)
 		ps[i] = prep{root, t, hx.Guard(func() string { return execOnce(sc, root, t).fingerprint() })}
+		if again := hx.Guard(func() string { return execOnce(sc, root, t).fingerprint() }); again != ps[i].seq {
+			report(sc, map[string]int{ps[i].seq: 1, again: 1}) // not even sequentially repeatable
+			ps[i].seq = ""
+		}
 	}
-	evals := k
+	evals := 2 * k
 	for round := 0; round < rounds; round++ {
 		got := make([]string, k)
 		var wg sync.WaitGroup
@@ -2088,7 +2127,7 @@ func concurrentBatch(r *hx.Rng, k, rounds int, report func(sc *Scenario, res map
 		wg.Wait()
 		evals += k
 		for i := range scs {
-			if got[i] != ps[i].seq {
+			if ps[i].seq != "" && got[i] != ps[i].seq {
 				concDiff = true
 				report(scs[i], map[string]int{"SEQUENTIAL " + ps[i].seq: 1, "CONCURRENT " + got[i]: 1})
 			}
